@@ -386,7 +386,7 @@ func (x *Exec) mergeValue(cond *Term, a, b Value) Value {
 		return PtrV{Kind: PRef, Base: x.c.Ite(cond, x.ptrTerm(a), x.ptrTerm(b))}
 	case FuncV:
 		bf, ok := b.(FuncV)
-		if ok && av.Fn == bf.Fn && av.T == bf.T && len(av.Binds) == 0 && len(bf.Binds) == 0 && av.Param == bf.Param {
+		if ok && valueSame(av, bf) {
 			return av
 		}
 		return FuncV{T: x.c.Ite(cond, x.funcTerm(a), x.funcTerm(b))}
@@ -438,7 +438,15 @@ func valueSame(a, b Value) bool {
 		return ok && ptrEqual(av, bv)
 	case FuncV:
 		bv, ok := b.(FuncV)
-		return ok && av.Fn == bv.Fn && av.T == bv.T && av.Param == bv.Param && len(av.Binds) == 0 && len(bv.Binds) == 0
+		if !ok || av.Fn != bv.Fn || av.T != bv.T || av.Param != bv.Param || len(av.Binds) != len(bv.Binds) {
+			return false
+		}
+		for i := range av.Binds { // the same closure: same function, same captured cells
+			if !valueSame(av.Binds[i], bv.Binds[i]) {
+				return false
+			}
+		}
+		return true
 	case ArrayV:
 		bv, ok := b.(ArrayV)
 		if !ok {
